@@ -382,4 +382,12 @@ def replay_file(path):
 
 
 if __name__ == "__main__":
-    sys.exit(main(sys.argv[1:]))
+    try:
+        rc = main(sys.argv[1:])
+    except SystemExit:
+        raise
+    except BaseException as e:  # noqa: an uncaught exception must never look like a violation (exit 1)
+        traceback.print_exc()
+        print(f"HARNESS-ERROR {type(e).__name__}: {e}")
+        rc = 2
+    sys.exit(rc)
